@@ -328,7 +328,9 @@ pub fn write_line_of_code_with_optional_path_and_line_number(
     config: &Config,
 ) -> std::io::Result<()> {
     let (mut draw_fn, _, decoration_ansi_term_style) = draw::get_draw_function(decoration_style);
-    let line = if config.color_only {
+    // In color-only mode a hunk header line is kept as it is. (Style sections are supplied for a
+    // line of grep output only: they belong to the code fragment, not to the input line.)
+    let line = if config.color_only && style_sections.is_none() {
         line.to_string()
     } else if matches!(include_code_fragment, HunkHeaderIncludeCodeFragment::Yes)
         && !code_fragment.is_empty()
